@@ -523,6 +523,10 @@ func (c *Ctx) constMapUpdates(pkg string, fns []string) map[string]map[string]st
 		frontier := []*ssa.Function{fn}
 		for depth := 0; depth < 3; depth++ {
 			var next []*ssa.Function
+			// a function's closures are part of it
+			for i := 0; i < len(frontier); i++ {
+				frontier = append(frontier, frontier[i].AnonFuncs...)
+			}
 			for _, f := range frontier {
 				instrsOf(f, func(in ssa.Instruction) {
 					sc := staticCallee(in)
